@@ -4875,12 +4875,13 @@ class NormDim(Array):
     def _intbounds_impl(self):
         lower_length, upper_length = self.length._intbounds
         lower_index, upper_index = self.index._intbounds
+        upper = max(upper_length - 1, 0) # an empty array may have length zero
         if lower_index >= 0:
-            return min(lower_index, upper_length - 1), min(upper_index, upper_length - 1)
+            return min(lower_index, upper), min(upper_index, upper)
         elif upper_index < 0 and isinstance(lower_length, int) and lower_length == upper_length:
             return max(lower_index + lower_length, 0), max(upper_index + lower_length, 0)
         else:
-            return 0, upper_length - 1
+            return 0, upper
 
 
 class TransformCoords(Array):
